@@ -72,6 +72,32 @@ CLAIMS = {
              "rigid-rotation exactness are not decided.",
         technique="symbolic forward substitution to normal forms (sympy as normaliser) + call-site role agreement",
         design="5/C12, 4.5"),
+    "C14": dict(
+        text="Element-wise model of the finite-element assembly: each quadrature integrand of DiffEqSolver.__init__ is parsed "
+             "into a polynomial over {weights, half-width, A..E, phi, phi', psi, psi', r} and compared with the weak form of "
+             "A phi'' + B phi' + C phi - m^2 D phi = E rho in cylindrical measure (integration by parts of the A term, derivative "
+             "on the trial/column function on the upper and the mirrored diagonal); operator composition; mode numbers squared "
+             "after the boundary tables; Dirichlet coefficients reset inside every per-mode loop before the solve; per-mode "
+             "operator with the global mode index; right-hand side, evaluation; pure-Neumann refusal before assembly; index-space "
+             "typing of the per-mode tables. Quadrature exactness, the sparse solve and evaluation accuracy are not decided.",
+        technique="integrand polynomial normal forms (sympy) + structural def-use/ordering rules + index-space typing",
+        design="5/C14"),
+    "C15": dict(
+        text="fft/ifft pairing along theta in place on the asserted layouts; mode numbers in the transform's output order for "
+             "even and odd counts; quasi-neutrality coefficient functions compared as rational functions of r with the equation "
+             "of the property; boundary and m=0/chi convention; per-mode book-keeping; index spaces of the mode tables; the "
+             "driver's layout typestate and the spectral typestate (real/modes) of rho and phi along the pipeline. Realness, "
+             "zero potential at equilibrium and the fixed point are numerical and not decided.",
+        technique="rational-function normal forms (sympy) + typestate over the driver's call sequence + index-space typing",
+        design="5/C15"),
+    "C16": dict(
+        text="The density kernels' assignment is extracted as sum_l w_l (f[i,j,k,l] - f_eq[i,l]) (resp. without f_eq) and feq_vector "
+             "as f_eq(r_i, v_j); the equilibrium table is [global r, global v] and is looked up with the global radial indices of "
+             "the local block; all kernel arguments indexed by one loop variable cover the same index range; weights come from "
+             "the interpolator of the v spline (= last axis of the asserted layout); the weight computation does not mutate the "
+             "basis' stored integrals. Exactness on the spline space (C09's numerical part) is not decided.",
+        technique="symbolic forward substitution (sum normal form) + index-space typing + alias/mutation lint",
+        design="5/C16"),
     "C06": dict(
         text="Static SPMD collective matching: every collective call site (35 today) and every call chain to it is "
              "shown to be control dependent only on rank-uniform conditions, or to lie in a region whose alternatives "
